@@ -26,3 +26,7 @@ pub open spec fn target_base_of(ps: Map<PathKey, Node>, source: PathKey, dest: P
 pub open spec fn map_target(tb: PathKey, source: PathKey, e: PathKey) -> PathKey {
     if prel(e, source) == pempty() { tb } else { pjoin(tb, prel(e, source)) }
 }
+/// event `ev` queues a Copy onto `t` of some path that designates inode `ino`
+pub open spec fn copy_queued(ev: Event, t: PathKey, ino: Inode, ps: Map<PathKey, Node>) -> bool {
+    ev is Queue && ev->Queue_0 is Copy && ev->Queue_0->Copy_1 == t && ps[ev->Queue_0->Copy_0].inode == ino
+}
